@@ -177,14 +177,20 @@ def tiny_cfg(J, obj_type="complex", modes=1, slices=1):
     return {"obj_type": obj_type, "slices": slices, "modes": modes, "roi": [8, 8], "scan": scan, "step": "fractional", "pad": [8, 8]}
 
 
-def build_problem(cfg, seed, key):
+def build_problem(cfg, seed, key, as_initial=False):
+    """as_initial: install the perturbed probe through a fresh probe model, so that it is also the state a reset
+    returns to (the plain probe setter only changes the current probe; reset restores the model's initial one)."""
     from checks import _ptycho
 
     rng = np.random.default_rng([seed, 9, 77] + list(key))
     P = _ptycho.build(cfg, rng)
     # start away from the ground truth so that losses and gradients are far from zero
     P.set_object(_ptycho.perturb_object(P.obj_true, P.cfg, P.geo, "noise", np.random.default_rng([seed, 9, 78] + list(key))))
-    P.set_probe(_ptycho.perturb_probe(P.probe_true, P.cfg, P.geo, "defocus"))
+    pp = _ptycho.perturb_probe(P.probe_true, P.cfg, P.geo, "defocus")
+    if as_initial:
+        P.set_probe_model(pp)
+    else:
+        P.set_probe(pp)
     return P
 
 
@@ -308,6 +314,21 @@ def run_history(J, obj_type, modes, seed, pseed, batch_size, iters=3, reset_agai
 
 
 RESET_OPS = ["cont1", "cont2", "reset"]
+SEED_SPELLINGS = ["int", "np_generator", "torch_generator"]
+
+
+def spell_seed(spelling, pseed):
+    """The same seed in every spelling the rng setter documents: an int, a numpy Generator seeded with it, a torch
+    Generator seeded with it (a fresh object per run: a Generator is consumed by the run that uses it)."""
+    if spelling == "int":
+        return int(pseed)
+    if spelling == "np_generator":
+        return np.random.default_rng(int(pseed))
+    if spelling == "torch_generator":
+        import torch
+
+        return torch.Generator().manual_seed(int(pseed))
+    raise Broken(f"unknown seed spelling {spelling}")
 
 
 def w_reset_histories(item, seed=0, depth=3):
@@ -317,23 +338,42 @@ def w_reset_histories(item, seed=0, depth=3):
     reset only along particular histories)."""
     J, obj_type, modes, bs, pseed = item[:5]
     val = tuple(item[5]) if len(item) > 5 and item[5] else None
+    # how the seed is spelled (int / numpy Generator / torch Generator) and whether the FIRST run already passes reset=True
+    spelling = item[6] if len(item) > 6 else "int"
+    first_reset = bool(item[7]) if len(item) > 7 else True
     t = Tally()
     iters = 3
-    fresh, _, lf = run_history(J, obj_type, modes, seed, pseed, bs, iters=iters, val=val)
+
+    def first_run():
+        P = build_problem(tiny_cfg(J, obj_type, modes, 1), seed, [J, modes, 1])
+        if not first_reset:
+            # bring the object to the state a reset returns to BEFORE the seed is given (the harness' probe/object
+            # setters change the current state only), so that the first, reset-less run starts where a reset run starts
+            P.ptycho.reconstruct(num_iters=0, reset=True, batch_size=bs, optimizer_params=copy.deepcopy(ADAM))
+        if val:
+            P.ptycho.val_ratio, P.ptycho.val_mode = val[0], val[1]
+        P.ptycho.rng = spell_seed(spelling, pseed)
+        if first_reset:
+            P.ptycho.reconstruct(num_iters=iters, reset=True, batch_size=bs, optimizer_params=copy.deepcopy(ADAM))
+        else:
+            P.ptycho.reconstruct(num_iters=iters, batch_size=bs, optimizer_params=copy.deepcopy(ADAM))
+        return P
+
+    with warnings.catch_warnings():
+        warnings.simplefilter("ignore")
+        P0 = first_run()
+    fresh = np.array(P0.ptycho.iter_losses, dtype=np.float64).tobytes()
+    lf = [float(x) for x in P0.ptycho.iter_losses]
     for d in range(1, depth + 1):
         for hist in itertools.product(RESET_OPS, repeat=d):
             if hist[-1] != "reset" or ("reset" in hist[:-1] and not any(h != "reset" for h in hist)):
                 pass
             if hist[-1] != "reset":
                 continue  # only histories that end in the observed reset run
-            case = {"part": "reset_history", "J": J, "obj_type": obj_type, "modes": modes, "batch_size": bs, "ptycho_seed": pseed, "history": list(hist), "val": list(val) if val else None}
+            case = {"part": "reset_history", "J": J, "obj_type": obj_type, "modes": modes, "batch_size": bs, "ptycho_seed": pseed, "history": list(hist), "val": list(val) if val else None, "seed_spelling": spelling, "first_reset": first_reset}
             with warnings.catch_warnings():
                 warnings.simplefilter("ignore")
-                P = build_problem(tiny_cfg(J, obj_type, modes, 1), seed, [J, modes, 1])
-                if val:
-                    P.ptycho.val_ratio, P.ptycho.val_mode = val[0], val[1]
-                P.ptycho.rng = int(pseed)
-                P.ptycho.reconstruct(num_iters=iters, reset=True, batch_size=bs, optimizer_params=copy.deepcopy(ADAM))
+                P = first_run()
                 ok_first = np.array(P.ptycho.iter_losses, dtype=np.float64).tobytes() == fresh
                 for op in hist:
                     if op == "cont1":
@@ -345,9 +385,9 @@ def w_reset_histories(item, seed=0, depth=3):
                 got = np.array(P.ptycho.iter_losses, dtype=np.float64)
             t.case(key=case, nontrivial=any(h != "reset" for h in hist), outcome=[round(float(x), 7) for x in got])
             if not ok_first:
-                t.fail({"relation": "same_seed_same_loss_history", "part": "reset_history"}, case, f"fresh run from seed {pseed} differs from the reference fresh run")
+                t.fail({"relation": "same_seed_same_loss_history", "part": "reset_history", "seed_spelling": spelling}, case, f"fresh run from seed {pseed} differs from the reference fresh run")
             if got.tobytes() != fresh:
-                t.fail({"relation": "reset_repeats_loss_history", "part": "reset_history", "after": "continued_run" if any(h != "reset" for h in hist) else "reset_only", "validation": val[1] if val else "none"}, case, f"history {list(hist)}: the final reset run gave {got.tolist()}, a fresh run from the same seed gives {lf}")
+                t.fail({"relation": "reset_repeats_loss_history", "part": "reset_history", "after": "continued_run" if any(h != "reset" for h in hist) else "reset_only", "validation": val[1] if val else "none", "seed_spelling": spelling, "first_run_passes_reset": first_reset}, case, f"seed given as {spelling}, first run {'with' if first_reset else 'without'} reset=True, history {list(hist)}: the final reset run gave {got.tolist()}, a fresh run from the same seed gives {lf}")
     return t
 
 
@@ -408,6 +448,9 @@ def run(ctx):
     rh = [(4, "complex", 1, 2, 11), (12, "potential", 2, 5, 11)] if q else [(J, ot, mm, bs, 11) for J, bs in ((4, 1), (4, 2), (12, 5)) for ot, mm in (("complex", 1), ("potential", 2))]
     # with a validation split (random and grid): the split itself is state that a reset must redraw identically
     rh += [(12, "complex", 1, 2, 11, (0.25, "random")), (12, "complex", 1, 4, 11, (0.25, "grid"))] if q else [(12, ot, mm, bs, 11, v) for ot, mm in (("complex", 1), ("potential", 2)) for bs in (2, 4) for v in ((0.25, "random"), (0.25, "grid"), (0.5, "random"))]
+    # the seed in each documented spelling, and a first run that does NOT pass reset=True ("the same run after a reset")
+    base = [(4, "complex", 1, 2, 5, None), (12, "complex", 1, 4, 11, (0.25, "random"))] if q else [(4, "complex", 1, 2, 5, None), (4, "complex", 1, 1, 11, None), (12, "potential", 2, 5, 5, None), (12, "complex", 1, 4, 11, (0.25, "random")), (12, "complex", 1, 2, 5, (0.25, "grid"))]
+    rh += [b + (sp, fr) for b in base for sp in SEED_SPELLINGS for fr in (True, False) if not (sp == "int" and fr)]
     ctx.pmap(w_reset_histories, rh, chunk=1, label="reset after every history", seed=ctx.seed, depth=2 if q else 3)
     if m.extra["different_seed_cases"] and m.extra["different_seed_differs"] == 0:
         raise Broken("different seeds never changed the loss history: the shuffle does not matter, determinism check is vacuous")
@@ -428,7 +471,7 @@ def replay(ctx, case):
     elif part in ("invariance", "loop", "loop_val"):
         t = w_invariance((case["J"], case["obj_type"], case["modes"], case["slices"], case["loss_type"]), seed=ctx.seed, quick=True)
     elif part == "reset_history":
-        t = w_reset_histories((case["J"], case["obj_type"], case["modes"], case["batch_size"], case["ptycho_seed"], case.get("val")), seed=ctx.seed, depth=len(case["history"]))
+        t = w_reset_histories((case["J"], case["obj_type"], case["modes"], case["batch_size"], case["ptycho_seed"], case.get("val"), case.get("seed_spelling", "int"), case.get("first_reset", True)), seed=ctx.seed, depth=len(case["history"]))
     elif part == "determinism":
         t = w_determinism((case["J"], case["obj_type"], case["modes"], case["batch_size"], case["ptycho_seed"]), seed=ctx.seed)
     for f in t.fails:
